@@ -1,6 +1,61 @@
-"""Contracts for src/kem.rs."""
+"""Contracts for src/kem.rs (the KEM interface, RFC 9180 §4)."""
+
+NSK = 'tnum::<<Self::PrivateKey as Serializable>::OutputSize>()'
 
 def apply(F):
     F.use()
-    F.wrap([], r'pub trait Kem\b')
-    F.wrap([], r'pub struct SharedSecret\b')
+    T = [r'pub trait Kem\b']
+    F.insert_in([], T[0], '''
+    /// ghost: SerializePublicKey(pk(sk)) over the serialized private key
+    spec fn k_pk_of(sk: Bytes) -> Bytes;
+    /// ghost: DeriveKeyPair(ikm) -> (serialized sk, serialized pk)
+    spec fn k_derive(ikm: Bytes) -> (Bytes, Bytes);
+    /// ghost: Encap/AuthEncap with ephemeral private key sk_e -> Some((shared_secret, enc)) | None
+    spec fn k_encap(pk_rm: Bytes, sender: Option<(Bytes, Bytes)>, sk_e: Bytes) -> Option<(Bytes, Bytes)>;
+    /// ghost: Decap/AuthDecap -> Some(shared_secret) | None
+    spec fn k_decap(sk_r: Bytes, pk_sm: Option<Bytes>, enc: Bytes) -> Option<Bytes>;
+''')
+    F.contract(T, r'fn sk_to_pk\b', ret='r', clauses='''
+        ensures /*@C03 C01*/ r.ser() == Self::k_pk_of(sk.ser());
+'''.rstrip().rstrip(';'))
+    F.contract(T, r'fn derive_keypair\b', ret='r', clauses='''
+        ensures /*@C03 C02*/ (r.0.ser(), r.1.ser()) == Self::k_derive(ikm@),
+                /*@C03*/ r.1.ser() == Self::k_pk_of(r.0.ser())
+''')
+    F.contract(T, r'fn gen_keypair<R: CryptoRng \+ RngCore>', ret='r', clauses=f'''
+        ensures
+            /*@C03 C02 C18*/ (r.0.ser(), r.1.ser()) == Self::k_derive(rng_stream::<R>(old(csprng)).take({NSK} as int)),
+            /*@C03*/ r.1.ser() == Self::k_pk_of(r.0.ser()),
+            /*@C18*/ rng_stream::<R>(final(csprng)) == rng_stream::<R>(old(csprng)).skip({NSK} as int),
+''')
+    F.contract(T, r'fn decap\b', ret='r', clauses='''
+        ensures
+            /*@C03 C10 C13*/ r is Ok <==> Self::k_decap(sk_recip.ser(), opt_ser(pk_sender_id), encapped_key.ser()) is Some,
+            /*@C10 C13*/ r is Err ==> r == Err::<SharedSecret<Self>, HpkeError>(HpkeError::DecapError),
+            /*@C03 C01 C02 C08*/ r is Ok ==> r.unwrap().0.gv() == Self::k_decap(sk_recip.ser(), opt_ser(pk_sender_id), encapped_key.ser()).unwrap()
+''')
+    F.contract(T, r'fn encap<R: CryptoRng \+ RngCore>', ret='r', clauses=f'''
+        ensures
+            /*@C18 C02*/ rng_stream::<R>(final(csprng)) == rng_stream::<R>(old(csprng)).skip({NSK} as int),
+            /*@C03 C02 C10 C13*/ ({{
+                let sk_e = Self::k_derive(rng_stream::<R>(old(csprng)).take({NSK} as int)).0;
+                let e = Self::k_encap(pk_recip.ser(), opt_pair_ser(sender_id_keypair), sk_e);
+                &&& r is Ok <==> e is Some
+                &&& r is Err ==> r == Err::<(SharedSecret<Self>, Self::EncappedKey), HpkeError>(HpkeError::EncapError)
+                &&& r is Ok ==> r.unwrap().0.0.gv() == e.unwrap().0 && r.unwrap().1.ser() == e.unwrap().1
+            }})
+''')
+    F.wrap([], T[0])
+    F.wrap([], r'pub struct SharedSecret<Kem: KemTrait>')
+    F.wrap([], r'impl<Kem: KemTrait> Default for SharedSecret<Kem>')
+    F.append('''
+verus!{
+/// ghost: serialized forms of optional key arguments
+pub open spec fn opt_ser<T: Serializable>(o: Option<&T>) -> Option<Bytes> {
+    match o { Some(k) => Some(k.ser()), None => None }
+}
+pub open spec fn opt_pair_ser<S: Serializable, P: Serializable>(o: Option<(&S, &P)>) -> Option<(Bytes, Bytes)> {
+    match o { Some(kp) => Some((kp.0.ser(), kp.1.ser())), None => None }
+}
+}
+''')
